@@ -42,6 +42,23 @@ impl Report {
             self.samples.push(s);
         }
     }
+    pub fn merge(&mut self, other: Report) {
+        for (k, v) in other.counters {
+            *self.counters.entry(k).or_insert(0) += v;
+        }
+        self.violation_total += other.violation_total;
+        for v in other.violations {
+            if self.violations.len() < MAX_KEPT {
+                self.violations.push(v);
+            }
+        }
+        for s in other.samples {
+            if self.samples.len() < 12 {
+                self.samples.push(s);
+            }
+        }
+    }
+
     pub fn to_json(&self) -> J {
         json!({
             "counters": self.counters,
